@@ -518,7 +518,12 @@ func (r *Resolver) ArenaResolveGraphQLResponse(ctx *Context, response *GraphQLRe
 	if inflight != nil && ctx.GetDeduplicationData != nil {
 		inflight.SharedData = ctx.GetDeduplicationData(ctx.ctx)
 	}
-	r.inboundRequestSingleFlight.FinishOk(inflight, buf.Bytes())
+	if ctx.ctx.Err() != nil {
+		// our own client went away: do not share a response that was produced under a cancelled context
+		r.inboundRequestSingleFlight.FinishAbandoned(inflight)
+	} else {
+		r.inboundRequestSingleFlight.FinishOk(inflight, buf.Bytes())
+	}
 	// all data is written to the client
 	// we're safe to release our buffer
 	r.responseBufferPool.Release(responseArena)
